@@ -59,3 +59,31 @@ Theorem C01_decoding_succeeds_iff_header_ok : forall c code ks,
   (hdr_ok c code ks = true <-> exists d, decode_code c code ks = OK d).
 Proof. exact decode_total_iff. Qed.
 Print Assumptions C01_decoding_succeeds_iff_header_ok.
+
+(* Both functions of the round trip as the current source writes them.  Gen/SrcTail.v and Gen/SrcHeader.v are re-translated
+   from code_data/_code_data.py on every run.
+   Decoder: the translated body of to_code_data - version split of posonlyargcount, to_line_mapping shifted by co_firstlineno,
+   to_flags_data, the keywords of ArgsInput, the header case analysis, the nine arguments of bytes_to_blocks,
+   pop_additional_line(len(co_code)), the keywords of CodeData(...) - IS the model's decode_code.
+   Encoder: encode_code IS blocks_to_bytes followed by the translated header and the translated tail (consts, additional line,
+   from_flags_data, lines shifted by -first_line_number, from_line_mapping, nlocals, either CodeType signature). *)
+From PCD Require Gen.SrcTail Gen.SrcHeader Proofs.SrcTailTie.
+Theorem C01_to_code_data_is_the_source : forall c code constants,
+  PCD.Gen.SrcTail.decode_code c code constants = decode_code c code constants.
+Proof. exact SrcTailTie.decode_code_is_the_source. Qed.
+Print Assumptions C01_to_code_data_is_the_source.
+
+Theorem C01_from_code_data_is_the_source : forall c d code lm0 names varnames cellvars constants,
+  blocks_to_bytes pkey_eqb (fun k => is_str_const (fst k)) (KInner INone, PInner INone)
+     (fun s => (KInner (IStr s), PInner (IStr s))) c (cd_blocks d) (cd_addargs d) (cd_freevars d) (cd_type d)
+  = OK (code, lm0, names, varnames, cellvars, constants) ->
+  encode_code c d =
+  match PCD.Gen.SrcHeader.EncodeHeader.header (cd_type d) varnames
+          (match cd_freevars d with [] => true | _ => false end) (match cellvars with [] => true | _ => false end)
+          (cd_future_annotations d) (cd_nested d) with
+  | Err e => Err e
+  | OK (argcount, posonly, kwonly, fl) =>
+      PCD.Gen.SrcTail.tail c d code lm0 names varnames cellvars constants argcount posonly kwonly fl
+  end.
+Proof. exact SrcTailTie.encode_code_is_the_source. Qed.
+Print Assumptions C01_from_code_data_is_the_source.
